@@ -17,6 +17,7 @@ Require Import Urcu.Wfs.WfsLin.
 Require Import Urcu.LfsRcu.LfsRcu.
 Require Import Urcu.LfsRcu.LfsRcuProof.
 Require Import Urcu.LfsRcu.LfsRcuExec.
+Require Import Urcu.LfsRcu.LfsRcuLin.
 Import ListNotations.
 Local Open Scope N_scope.
 
@@ -66,13 +67,13 @@ Theorem C11_lfstack_linearizable_lifo :
     (forall (t u : nat) (x : N),
     t <> u -> In x (LfsProof.pushes (threads t)) -> ~ In x (LfsProof.pushes (threads u))) ->
     forall cs : list choice,
-    exists (a' : LfsLin.ast) (L : list (Lin.op sop N)),
+    exists (a' : LfsLin.ast) (L : list (Lin.op LfsLin.sop N)),
     LfsLin.runl LfsLin.a0 (LfsLin.gtrace cs (init_state threads, [])) = Some (a', L) /\
-    legal sop N (list N) lspec [] L /\
+    legal LfsLin.sop N (list N) LfsLin.lspec [] L /\
     (forall t : nat,
-    tops sop N t L =
-    hcomp sop N t None (LfsLin.gtrace cs (init_state threads, [])) ++
-    pre sop N (pm sop N (list N) a' t)).
+    tops LfsLin.sop N t L =
+    hcomp LfsLin.sop N t None (LfsLin.gtrace cs (init_state threads, [])) ++
+    pre LfsLin.sop N (pm LfsLin.sop N (list N) a' t)).
 Proof. exact (@Urcu.Lfs.LfsLin.lfs_linearizable). Qed.
 Print Assumptions C11_lfstack_linearizable_lifo.
 
@@ -100,8 +101,8 @@ Theorem C11_wfstack_linearizable_lifo :
     NoDup (Wfs.pushes (threads t)) /\ (forall n : N, In n (Wfs.pushes (threads t)) -> 2 <= n)) ->
     (forall (t u : nat) (x : N), In x (Wfs.pushes (threads t)) -> In x (Wfs.pushes (threads u)) -> t = u) ->
     forall cs : list MachE.choice,
-    exists (a' : ast) (L : list (Lin.op wop (list N))),
-    runl a0 (gtrace cs (WfsRun.init_state threads, [], p0)) = Some (a', L) /\
+    exists (a' : WfsLin.ast) (L : list (Lin.op wop (list N))),
+    WfsLin.runl WfsLin.a0 (gtrace cs (WfsRun.init_state threads, [], p0)) = Some (a', L) /\
     legal wop (list N) (list N) wspec [] L /\
     (forall t : nat,
     tops wop (list N) t L =
@@ -150,4 +151,20 @@ Theorem C11_accepted_rculfstack_trace_keeps_invariant :
     forall (l : list ract) (s : st), rrun NT l (init threads) = Some s -> Inv NT s.
 Proof. exact (@Urcu.LfsRcu.LfsRcuExec.accepted_rculfs_trace_keeps_invariant). Qed.
 Print Assumptions C11_accepted_rculfstack_trace_keeps_invariant.
+
+(* legacy cds_lfs_rcu: every history of the model - any number of concurrent pushers and poppers, reuse after a grace period, every schedule - is accepted by the LIFO automaton (push with its was-non-empty answer, pop answering the top node or NULL), linearisation points at the successful cmpxchg / the head load that sees NULL *)
+Theorem C11_rculfstack_linearizable_lifo :
+    forall (NT : nat) (threads : nat -> list op),
+    (forall t : nat, NoDup (pushes (threads t)) /\ ~ In 0 (pushes (threads t))) ->
+    (forall (t u : nat) (n : N), In n (pushes (threads t)) -> In n (pushes (threads u)) -> t = u) ->
+    (forall t : nat, (NT <= t)%nat -> threads t = []) ->
+    forall cs : list nat,
+    exists (a' : ast) (L : list (Lin.op sop N)),
+    runl a0 (htrace NT cs (init threads)) = Some (a', L) /\
+    legal sop N (list N) lspec [] L /\
+    (forall t : nat,
+    tops sop N t L =
+    hcomp sop N t None (htrace NT cs (init threads)) ++ pre sop N (pm sop N (list N) a' t)).
+Proof. exact (@Urcu.LfsRcu.LfsRcuLin.rculfs_linearizable). Qed.
+Print Assumptions C11_rculfstack_linearizable_lifo.
 
